@@ -195,6 +195,8 @@ pub enum ValMode {
     Ties,
     Huge,
     SignedZero,
+    Constant,
+    TwoLevels,
 }
 
 #[derive(Clone, Debug)]
@@ -269,6 +271,10 @@ impl ValGen {
             ValMode::Ties => *self.rng.pick(&[0.0, 1.0, 1.0, 2.0, 2.0, 2.0, 3.0]),
             ValMode::Huge => (self.rng.unit() - 0.5) * 2.0e300,
             ValMode::SignedZero => *self.rng.pick(&[0.0, -0.0, 0.0, -0.0, 1.0, -1.0]),
+            ValMode::Constant => 0.125,
+            ValMode::TwoLevels => {
+                if self.k <= 101 + (self.rng.0 % 7) { 1.0 } else { 2.0 }
+            }
         }
     }
 }
@@ -566,9 +572,11 @@ pub fn run_schedule(s: &Sched) -> Obs {
 pub fn gen_sched(master: u64, idx: u64, profile: &str) -> Sched {
     let mut r = Prng::new(master.wrapping_mul(1_000_003).wrapping_add(idx));
     let seed = r.next_u64();
+    let evict = profile == "evict";
     let long = profile == "long" || (profile != "short" && r.chance(1, 8));
     let nc = if r.chance(1, 4) { 1 } else { 1 + r.below(8) };
     let ss = match profile {
+        "evict" => 1,
         "reeval" => 2 + r.below(3),
         _ => {
             if r.chance(2, 3) {
@@ -578,14 +586,18 @@ pub fn gen_sched(master: u64, idx: u64, profile: &str) -> Sched {
             }
         }
     };
-    let budget = match r.below(10) {
+    let budget = match if evict { 9 } else { r.below(10) } {
         0 => None,
         1 => Some(0),
         2 => Some(r.below(nc + 1)),
         3 | 4 => Some(r.below(3 * nc + 1)),
-        _ => Some(if long || profile == "reeval" { 60 + r.below(400) } else { 1 + r.below(40) }),
+        _ => Some(if evict { 105 + r.below(200) } else if long || profile == "reeval" { 60 + r.below(400) } else { 1 + r.below(40) }),
     };
-    let val_mode = match r.below(8) {
+    let val_mode = match if evict { 8 + r.below(6) } else { r.below(8) } {
+        8 | 9 => ValMode::Constant,
+        10 | 11 => ValMode::TwoLevels,
+        12 => ValMode::Decreasing,
+        13 => ValMode::Ties,
         0 | 1 => ValMode::Random,
         2 => ValMode::Decreasing,
         3 => ValMode::Increasing,
@@ -601,6 +613,8 @@ pub fn gen_sched(master: u64, idx: u64, profile: &str) -> Sched {
             ValMode::Ties => *r.pick(&[0.0, -0.0, 0.5, 1.0, -1.0]),
             ValMode::Huge => -5.0e299,
             ValMode::SignedZero => *r.pick(&[0.0, -0.0, -1.0, -2.0]),
+            ValMode::Constant => *r.pick(&[0.0, 0.125]),
+            ValMode::TwoLevels => 0.5,
         })
     } else {
         None
